@@ -53,6 +53,9 @@ func genC14(t *rapid.T) c14Case {
 			}
 		}
 		e := c14Entry{Shape: gen.DrawShape(t, gen.ShapeOpts{MaxXform: 3})}
+		if rapid.IntRange(0, 5).Draw(t, fmt.Sprintf("e%dexternals", i)) == 0 {
+			e.Shape.Xform = 4 // output depends on the transform's external properties: goroutines pass different ones
+		}
 		e.Recs = gen.DrawRecs(t, e.Shape, fmt.Sprintf("e%d", i), 1, 5, gen.ValueOpts{})
 		c.Entries = append(c.Entries, e)
 	}
@@ -77,8 +80,14 @@ func genC14(t *rapid.T) c14Case {
 	return c
 }
 
-func c14Run(sch omniparser.Schema, in []byte, yield func(i int)) ([]run.Step, error) {
-	tr, err := sch.NewTransform("input", bytes.NewReader(in), &transformctx.Ctx{})
+// c14Exts: the external properties of even and odd goroutines (schemas of the externals flavour read tag, xp, num, flag).
+var c14Exts = []map[string]string{
+	{"tag": "A", "xp": "c0", "num": "7", "flag": "true"},
+	{"tag": "B", "xp": "*[last()]", "num": "-3", "flag": "false"},
+}
+
+func c14Run(sch omniparser.Schema, in []byte, ext map[string]string, yield func(i int)) ([]run.Step, error) {
+	tr, err := sch.NewTransform("input", bytes.NewReader(in), &transformctx.Ctx{ExternalProperties: ext})
 	if err != nil {
 		return []run.Step{{Kind: "term", Err: err.Error(), ErrClass: "newtransform"}}, nil
 	}
@@ -110,7 +119,7 @@ func checkC14(c c14Case) obs.Result {
 	defer runtime.GOMAXPROCS(prev)
 	schemas := make([]omniparser.Schema, len(c.Entries))
 	inputs := make([][]byte, len(c.Entries))
-	serial := make([][]run.Step, len(c.Entries))
+	serial := make([][2][]run.Step, len(c.Entries))
 	js, sample := false, false
 	for i, e := range c.Entries {
 		schemaText, in, ok := e.schemaAndInput()
@@ -124,9 +133,17 @@ func checkC14(c c14Case) obs.Result {
 		}
 		schemas[i] = sch
 		inputs[i] = in
-		serial[i], err = c14Run(sch, inputs[i], nil)
-		if err != nil {
-			return obs.Result{Excluded: "serial run has no terminal result"}
+		for x := range c14Exts {
+			// the serial reference of each (entry, externals) pair comes from a Schema object of its own: the shared one must
+			// not have been shaped by an earlier transform
+			fresh, ferr := run.NewSchema(schemaText)
+			if ferr != nil {
+				return obs.Violationf("generated schema rejected: %v", ferr)
+			}
+			serial[i][x], err = c14Run(fresh, inputs[i], c14Exts[x], nil)
+			if err != nil {
+				return obs.Result{Excluded: "serial run has no terminal result"}
+			}
 		}
 		if e.Shape.Xform >= 2 {
 			js = true
@@ -146,7 +163,7 @@ func checkC14(c c14Case) obs.Result {
 			defer wg.Done()
 			<-start
 			for rep := 0; rep < c.Repeats; rep++ {
-				steps, err := c14Run(schemas[e], inputs[e], func(i int) {
+				steps, err := c14Run(schemas[e], inputs[e], c14Exts[g%2], func(i int) {
 					if c.Jitter[(g+i)%len(c.Jitter)] == 1 {
 						runtime.Gosched()
 					}
@@ -163,7 +180,7 @@ func checkC14(c c14Case) obs.Result {
 		if r.err != nil {
 			return obs.Violationf("goroutine %d (entry %d, repeat %d): %v", r.g, e, r.rep, r.err)
 		}
-		if d := run.Diff(serial[e], r.steps, run.Step.KeyExact); d != "" {
+		if d := run.Diff(serial[e][r.g%2], r.steps, run.Step.KeyExact); d != "" {
 			return obs.Violationf("goroutine %d (entry %d, repeat %d) running concurrently with %d others obtained different results than alone (A = serial, B = concurrent):\n%s\ninput %q",
 				r.g, e, r.rep, len(c.Assign)-1, d, inputs[e])
 		}
